@@ -15,7 +15,7 @@ func init() {
 		Rule:     "trial = generated SAM (reference 4..60, 1..8 queries or 60..150 one-record queries, 1..3 primary/supplementary records per query overlapping or not and agreeing or conflicting, CIGARs over M I D N S H P = X incl. leading/trailing D, unmapped/secondary records interleaved) x --pad x --start/--end x --wrap, 3 seeded schedules with --threads in {1,2,3,4,8} and chunked SAM reads; oracle = executable reference model of the projection; non-trivial = at least one multi-record query or at least one D/N/I operator, and at least 2 queries; distinct = distinct (input, options)",
 		Gen:      genC01,
 		Check:    checkC01,
-		Required: []string{"out_of_order_arrival", "multi_record_query", "conflicting_overlap", "junk_record_inside_block", "deletion_facing_base_in_overlap"},
+		Required: []string{"overtaken_by_256_or_more", "out_of_order_arrival", "multi_record_query", "conflicting_overlap", "junk_record_inside_block", "deletion_facing_base_in_overlap"},
 	})
 }
 
@@ -25,6 +25,9 @@ func genC01(r *Rand, tier string, ord int) *Trial {
 	kind := "generated"
 	if many {
 		sp.L, sp.Queries, sp.MaxRecs, kind = r.Range(4, 12), r.Range(60, 150), 1, "generated-many"
+		if r.P(0.25) { // several hundred queries: a parked worker is overtaken by more records than any fixed-size window holds
+			sp.Queries, kind = r.Range(300, 700), "generated-many-hundreds"
+		}
 	}
 	if r.P(0.2) {
 		sp.Conflict, sp.DelFlip = 0, 0
@@ -46,6 +49,15 @@ func genC01(r *Rand, tier string, ord int) *Trial {
 	}
 	t := &Trial{Kind: kind, Case: Case{Cmd: "toma", Files: map[string]string{"sam": sc.Text()}, Opts: o}, Params: map[string]string{}}
 	t.Runs = genRunCfgs(r, 3)
+	if many {
+		scaleHorizon(t.Runs, 10*sp.Queries)
+		if r.P(0.5) {
+			t.Runs[0].Strat = simrt.Strategy{Kind: simrt.StratPCT, Depth: r.Range(1, 3), Horizon: 6 * sp.Queries, SelectRand: true}
+			if t.Runs[0].Threads < 2 {
+				t.Runs[0].Threads = r.PickInt(2, 3, 4, 8)
+			}
+		}
+	}
 	return t
 }
 
@@ -130,6 +142,9 @@ func checkC01(t *Trial, ctx *Ctx) *Failure {
 		if res.Out.Kind != simrt.Returned || res.Err != nil {
 			t.Runs = t.Runs[i : i+1]
 			return &Failure{Class: "C01/valid-input-not-processed{" + res.Out.Signature() + "}", Detail: res.Describe() + "\n" + t.Case.Files["sam"]}
+		}
+		if res.Tap != nil && res.Tap.maxGap >= 256 {
+			ctx.Probe("overtaken_by_256_or_more", 1)
 		}
 		if got := string(res.Stdout); got != want {
 			t.Runs = t.Runs[i : i+1]
